@@ -209,6 +209,10 @@ func cmdLockstep(args []string) error {
 				cfg.MaxDepth = 0
 			}
 		}
+		if *profile == "bulk" && script == nil {
+			// a long history with hundreds of messages: no limits, no retention (size-dependent code paths of the stores)
+			cfg = jcfg{}
+		}
 		if script != nil {
 			cfg = script[t].cfg
 		}
@@ -236,11 +240,22 @@ func cmdLockstep(args []string) error {
 		if script != nil {
 			n = len(script[t].steps)
 		}
+		var bulk *bulkScript
+		if *profile == "bulk" && script == nil {
+			bulk = &bulkScript{}
+			n = 1 << 30
+		}
 		for i := 0; i < n; i++ {
 			var op jop
 			if script != nil {
 				clock.now = script[t].steps[i].Now
 				op = script[t].steps[i].Op
+			} else if bulk != nil {
+				var more bool
+				op, more = bulk.next(g)
+				if !more {
+					break
+				}
 			} else {
 				// lock-step clock: 0 or >= 10 ms, so that the SQLite sweep granularity (C05's subject) is not a difference
 				before := clock.now
